@@ -109,4 +109,257 @@ theorem mem_removeUnderscores {c : Char} {l : Str} (h : c ∈ l) (hc : c ≠ '_'
   unfold removeUnderscores
   exact List.mem_filter.mpr ⟨h, by simpa using hc⟩
 
+/-! ### generic list facts -/
+
+theorem span_loop_eq (p : Char → Bool) (l acc : Str) :
+    List.span.loop p l acc = (acc.reverse ++ l.takeWhile p, l.dropWhile p) := by
+  induction l generalizing acc with
+  | nil => simp [List.span.loop]
+  | cons x xs ih =>
+    unfold List.span.loop
+    cases hx : p x with
+    | true => simp [ih, hx]
+    | false => simp [hx]
+
+theorem span_eq (p : Char → Bool) (l : Str) : l.span p = (l.takeWhile p, l.dropWhile p) := by
+  unfold List.span; rw [span_loop_eq]; simp
+
+theorem mem_takeWhile_imp {p : Char → Bool} {l : Str} {c : Char} (h : c ∈ l.takeWhile p) :
+    p c = true := by
+  induction l with
+  | nil => simp at h
+  | cons x xs ih =>
+    rw [List.takeWhile_cons] at h
+    split at h
+    · rcases List.mem_cons.mp h with rfl | h'
+      · assumption
+      · exact ih h'
+    · simp at h
+
+theorem dropWhile_none {p : Char → Bool} {l : Str} (h : ∀ c ∈ l, p c = false) :
+    l.dropWhile p = l := by
+  cases l with
+  | nil => rfl
+  | cons x xs => rw [List.dropWhile_cons]; simp [h x (by simp)]
+
+theorem takeWhile_none {p : Char → Bool} {l : Str} (h : ∀ x r, l = x :: r → p x = false) :
+    l.takeWhile p = [] := by
+  cases l with
+  | nil => rfl
+  | cons x xs => rw [List.takeWhile_cons]; simp [h x xs rfl]
+
+theorem dropWhile_head {p : Char → Bool} {l : Str} (h : ∀ x r, l = x :: r → p x = false) :
+    l.dropWhile p = l := by
+  cases l with
+  | nil => rfl
+  | cons x xs => rw [List.dropWhile_cons]; simp [h x xs rfl]
+
+/-- a run of `p`-characters followed by something that does not start with one -/
+theorem span_append {p : Char → Bool} {ds rest : Str} (hd : ∀ c ∈ ds, p c = true)
+    (hr : ∀ x r, rest = x :: r → p x = false) :
+    (ds ++ rest).span p = (ds, rest) := by
+  rw [span_eq, List.takeWhile_append_of_pos hd, List.dropWhile_append_of_pos hd,
+    takeWhile_none hr, dropWhile_head hr]; simp
+
+theorem stripBy_none {p : Char → Bool} {l : Str} (h : ∀ c ∈ l, p c = false) : stripBy p l = l := by
+  unfold stripBy rstripBy lstripBy
+  rw [dropWhile_none h, dropWhile_none (l := l.reverse) (by simpa using h)]; simp
+
+theorem stripBy_decomp (p : Char → Bool) (l : Str) :
+    ∃ a b, l = a ++ stripBy p l ++ b ∧ (∀ c ∈ a, p c = true) ∧ (∀ c ∈ b, p c = true) := by
+  refine ⟨l.takeWhile p, ((l.dropWhile p).reverse.takeWhile p).reverse, ?_, ?_, ?_⟩
+  · unfold stripBy rstripBy lstripBy
+    have h1 : (List.dropWhile p (List.dropWhile p l).reverse).reverse ++
+        (List.takeWhile p (List.dropWhile p l).reverse).reverse = l.dropWhile p := by
+      rw [← List.reverse_append, List.takeWhile_append_dropWhile, List.reverse_reverse]
+    rw [List.append_assoc, h1, List.takeWhile_append_dropWhile]
+  · intro c hc; exact mem_takeWhile_imp hc
+  · intro c hc; exact mem_takeWhile_imp (List.mem_reverse.mp hc)
+
+/-! ### replaceChar -/
+
+theorem replaceChar_append (c : Char) (t a b : Str) :
+    replaceChar c t (a ++ b) = replaceChar c t a ++ replaceChar c t b := by
+  induction a with
+  | nil => simp [replaceChar]
+  | cons x xs ih =>
+    simp only [List.cons_append, replaceChar]
+    split <;> simp [ih]
+
+theorem replaceChar_of_not_mem {c : Char} {t l : Str} (h : c ∉ l) : replaceChar c t l = l := by
+  induction l with
+  | nil => simp [replaceChar]
+  | cons x xs ih =>
+    simp only [List.mem_cons, not_or] at h
+    unfold replaceChar
+    rw [if_neg (fun e => h.1 e.symm), ih h.2]
+
+theorem replaceChar_nil_eq_filter (c : Char) (l : Str) :
+    replaceChar c [] l = l.filter (· != c) := by
+  induction l with
+  | nil => simp [replaceChar]
+  | cons x xs ih =>
+    unfold replaceChar
+    by_cases hx : x = c
+    · simp [hx, ih]
+    · simp [hx, ih]
+
+theorem filter_replaceChar {c x : Char} {t : Str} (hcx : c ≠ x) (ht : x ∉ t) (l : Str) :
+    (replaceChar c t l).filter (· != x) = replaceChar c t (l.filter (· != x)) := by
+  induction l with
+  | nil => simp [replaceChar]
+  | cons y ys ih =>
+    by_cases hy : y = c
+    · subst hy
+      have : (y != x) = true := by simpa using hcx
+      have ht' : t.filter (· != x) = t := by
+        rw [List.filter_eq_self]; intro a ha
+        have : a ≠ x := fun e => ht (e ▸ ha)
+        simpa using this
+      simp [replaceChar, this, ih, ht']
+    · by_cases hyx : y = x
+      · subst hyx
+        simp [replaceChar, hy, ih]
+      · simp [replaceChar, hy, hyx, ih]
+
+
+/-! ### characters -/
+
+theorem isDigit_mem {c : Char} (h : isDigit c = true) :
+    c ∈ ['0','1','2','3','4','5','6','7','8','9'] := by
+  unfold isDigit at h
+  simp only [Bool.and_eq_true, decide_eq_true_eq, Char.le_def] at h
+  obtain ⟨h1, h2⟩ := h
+  have e : c = Char.ofNat c.toNat := (Char.ofNat_toNat c).symm
+  have h1' : 48 ≤ c.toNat := by
+    have := UInt32.le_iff_toNat_le.mp h1; simpa using this
+  have h2' : c.toNat ≤ 57 := by
+    have := UInt32.le_iff_toNat_le.mp h2; simpa using this
+  generalize c.toNat = n at e h1' h2'
+  have : n = 48 ∨ n = 49 ∨ n = 50 ∨ n = 51 ∨ n = 52 ∨ n = 53 ∨ n = 54 ∨ n = 55 ∨ n = 56 ∨ n = 57 := by omega
+  rcases this with h|h|h|h|h|h|h|h|h|h <;> subst h <;> subst e <;> decide
+
+/-- to prove a (decidable) fact about every digit, check the ten digits -/
+theorem isDigit_elim {c : Char} (h : isDigit c = true) {P : Char → Prop}
+    (hP : ∀ d ∈ ['0','1','2','3','4','5','6','7','8','9'], P d) : P c := hP c (isDigit_mem h)
+
+theorem lowerChar_digit {c : Char} (h : isDigit c = true) : lowerChar c = c :=
+  isDigit_elim h (P := fun d => lowerChar d = d) (by decide)
+
+theorem lowerChar_cases (c : Char) : lowerChar c = c ∨ lowerChar c ∈ ['a','b','c','d','e','f','g','h','i','j','k','l','m','n','o','p','q','r','s','t','u','v','w','x','y','z'] := by
+  unfold lowerChar
+  split <;> simp
+
+theorem lowerChar_idem (c : Char) : lowerChar (lowerChar c) = lowerChar c := by
+  rcases lowerChar_cases c with h | h
+  · simp [h]
+  · simp only [List.mem_cons, List.not_mem_nil, or_false] at h
+    rcases h with h|h|h|h|h|h|h|h|h|h|h|h|h|h|h|h|h|h|h|h|h|h|h|h|h|h <;> rw [h] <;> decide
+
+theorem isNumWs_lowerChar (c : Char) : isNumWs (lowerChar c) = isNumWs c := by
+  unfold lowerChar
+  split <;> first | rfl | decide
+
+theorem isStrWs_lowerChar (c : Char) : isStrWs (lowerChar c) = isStrWs c := by
+  unfold lowerChar
+  split <;> first | rfl | decide
+
+theorem lowerChar_ne_blank (c : Char) : (lowerChar c != ' ') = (c != ' ') := by
+  unfold lowerChar
+  split <;> first | rfl | decide
+
+theorem filter_lower (l : Str) : (lower l).filter (· != ' ') = lower (l.filter (· != ' ')) := by
+  unfold lower
+  rw [List.filter_map]
+  congr 1
+  apply List.filter_congr
+  intro c _
+  simp only [Function.comp]
+  exact lowerChar_ne_blank c
+
+theorem mem_lower {c : Char} {l : Str} (h : c ∈ l) : lowerChar c ∈ lower l :=
+  List.mem_map_of_mem h
+
+theorem lower_fixed {l : Str} (h : ∀ c ∈ l, lowerChar c = c) : lower l = l := by
+  unfold lower
+  induction l with
+  | nil => rfl
+  | cons x xs ih =>
+    simp only [List.map_cons]
+    rw [h x (by simp), ih (fun c hc => h c (List.mem_cons_of_mem _ hc))]
+
+theorem lower_append (a b : Str) : lower (a ++ b) = lower a ++ lower b := by
+  simp [lower]
+
+/-! ### the parsers, stage by stage -/
+
+theorem takeSign_cases (s : Str) :
+    (takeSign s = (true, s.drop 1) ∧ ∃ t, s = '-' :: t) ∨
+    (takeSign s = (false, s.drop 1) ∧ ∃ t, s = '+' :: t) ∨
+    (takeSign s = (false, s) ∧ ∀ x r, s = x :: r → x ≠ '-' ∧ x ≠ '+') := by
+  unfold takeSign
+  split
+  · left; simp
+  · right; left; simp
+  · right; right
+    refine ⟨rfl, ?_⟩
+    intro x r h
+    subst h
+    rename_i h1 h2
+    exact ⟨fun e => h1 r (by rw [e]), fun e => h2 r (by rw [e])⟩
+
+theorem takeSign_nosign {s : Str} (h : ∀ x r, s = x :: r → x ≠ '-' ∧ x ≠ '+') :
+    takeSign s = (false, s) := by
+  rcases takeSign_cases s with ⟨_, t, rfl⟩ | ⟨_, t, rfl⟩ | ⟨h', _⟩
+  · exact absurd rfl (h _ _ rfl).1
+  · exact absurd rfl (h _ _ rfl).2
+  · exact h'
+
+/-- exponent digits after the `e` -/
+def parseExpTail (r : Str) : Option Int :=
+  let ed := (takeSign r).2.takeWhile isDigit
+  let r2 := (takeSign r).2.dropWhile isDigit
+  if ed.isEmpty || !r2.isEmpty then none
+  else some (if (takeSign r).1 then -(digitsVal ed : Int) else (digitsVal ed : Int))
+
+theorem parseExp_cons (c : Char) (r : Str) :
+    parseExp (c :: r) = if c = 'e' || c = 'E' then parseExpTail r else none := by
+  unfold parseExp parseExpTail
+  simp only [span_eq]
+
+def fracPart (r1 : Str) : Str × Str :=
+  match r1 with
+  | '.' :: t => t.span isDigit
+  | _ => ([], r1)
+
+theorem fracPart_dot (t : Str) : fracPart ('.' :: t) = (t.takeWhile isDigit, t.dropWhile isDigit) := by
+  simp [fracPart, span_eq]
+
+theorem fracPart_other {r1 : Str} (h : ∀ x r, r1 = x :: r → x ≠ '.') : fracPart r1 = ([], r1) := by
+  unfold fracPart
+  split
+  · exact absurd rfl (h _ _ rfl)
+  · rfl
+
+def parseNum (neg : Bool) (s1 : Str) : Option FVal :=
+  let ip := s1.takeWhile isDigit
+  let r1 := s1.dropWhile isDigit
+  let fp := (fracPart r1).1
+  let r2 := (fracPart r1).2
+  if ip.isEmpty && fp.isEmpty then none
+  else match parseExp r2 with
+    | some e => some (.fin neg (digitsVal (ip ++ fp)) (e - fp.length))
+    | none => none
+
+def parseBody (neg : Bool) (s1 : Str) : Option FVal :=
+  if lower s1 = ['i','n','f'] || lower s1 = ['i','n','f','i','n','i','t','y'] then some (.inf neg)
+  else if lower s1 = ['n','a','n'] then some .nan
+  else parseNum neg s1
+
+theorem parseDecimal_eq (s : Str) :
+    parseDecimal s = parseBody (takeSign s).1 (takeSign s).2 := by
+  unfold parseDecimal parseBody parseNum fracPart
+  simp only [span_eq]
+  rfl
+
 end Py
